@@ -65,7 +65,7 @@ type Scenario struct {
 	Name   string   `json:"name,omitempty"`
 	Cfg    Cfg      `json:"cfg"`
 	Reqs   []Req    `json:"reqs"`
-	Stalls [][2]int `json:"stalls,omitempty"` // [from,to): the environment does not take responses
+	Stalls [][2]int `json:"stalls,omitempty"`  // [from,to): the environment does not take responses
 	TakeAt []int    `json:"take_at,omitempty"` // if set: before TakeAllFrom the environment takes one response per listed cycle
 	// from this cycle on the environment takes everything every cycle (0: from the start unless stalled)
 	TakeAllFrom int `json:"take_all_from,omitempty"`
